@@ -385,5 +385,27 @@ def protocol(prog, rep):
     added = any(isinstance(s, ast.Expr) and bc.term(s.value, s) == ("call", ("attr", ("attr", SELF, "_fitted_conditioners"), "add"), (P("caller"),), ()) for s in cc.all_stmts())
     rep.check(added, "C14.protocol", f"{cb.qualname}:record-caller", cb.where(), "_fitted_conditioners.add(caller)", "callback must record which conditioner has been fitted")
     # the enabling condition mentions the recorded conditioners
-    okc = bool(en) and any(mentions(l, ("attr", SELF, "_fitted_conditioners")) for l in pc.of(en[0]))
-    rep.check(okc, "C14.protocol", f"{cb.qualname}:condition", cb.where(), "enabling is conditioned on the fitted conditioners", "fitting must be enabled depending on the recorded fitted conditioners")
+    FC, DP = ("attr", SELF, "_fitted_conditioners"), ("attr", SELF, "dependent_parameters")
+    from vstat.terms import ordered as _ordered
+
+    def all_fitted(l):
+        """True: the literal says every conditioner is among the fitted ones; False: it says something else about them; None: not about them"""
+        if not mentions(l, FC):
+            return None
+        if l[0] == "call" and l[1][0] == "attr" and l[1][2] in ("issubset", "issuperset") and len(l[2]) == 1:
+            small, big = (l[1][1], l[2][0]) if l[1][2] == "issubset" else (l[2][0], l[1][1])
+            return mentions(small, DP) and not mentions(small, FC) and mentions(big, FC) and not mentions(big, DP)
+        o = _ordered(l)
+        if o is not None:
+            return mentions(o[0], DP) and not mentions(o[0], FC) and mentions(o[1], FC) and not mentions(o[1], DP) and not o[2]
+        if l[0] == "cmp" and l[1] == "==":
+            return mentions(l, DP)
+        if l[0] == "call" and l[1] == G("all"):
+            return any(w[0] == "cmp" and w[1] == "in" and w[3] == FC for w in walk(l)) and mentions(l, DP)
+        return False
+    verdicts = [all_fitted(l) for l in (pc.of(en[0]) if en else ())]
+    okc = bool(en) and True in verdicts and False not in verdicts
+    rep.check(okc, "C14.protocol", f"{cb.qualname}:condition", cb.where(), "fitting is enabled when EVERY conditioner has been fitted (conditioners <= fitted)",
+              "fitting must be enabled only when every dependence-function parameter is among the recorded fitted conditioners "
+              "(set(dependent_parameters.values()) <= _fitted_conditioners); the test found is the other way round or about something else: with two "
+              "conditioners the function is fitted against an unfitted one after the first callback")
